@@ -11,6 +11,7 @@
 #include <cstdlib>
 #include <fstream>
 #include <functional>
+#include <locale>
 #include <random>
 #include <sstream>
 #include <stdexcept>
@@ -465,6 +466,15 @@ int main(int argc, char** argv)
     // early stop by target precision (built-in callback): resumed runs must stop at the same iteration
     run_cfg<plain_kind>(g, "mt19937_64", std::mt19937_64(s), 0, 0, T(0.02), thorough);
     run_cfg<vegas_kind>(g, "mt19937", std::mt19937(s), 0, 0, T(0.01), thorough);
+    // a process whose global locale writes a decimal comma: what the built-in callback writes to its file is read back by the user's own
+    // stream in the same process - every history must come out as it does anywhere else
+    {
+        struct comma : std::numpunct<char> { char do_decimal_point() const override { return ','; } };
+        std::locale old = std::locale::global(std::locale(std::locale::classic(), new comma));
+        run_cfg<plain_kind>(g, "mt19937", std::mt19937(s), 0, 1, T(), false);
+        run_cfg<vegas_kind>(g, "minstd_rand", std::minstd_rand(s), 1, 0, T(), false);
+        std::locale::global(old);
+    }
     if (thorough)
     {
         run_cfg<plain_kind>(g, "ranlux24", std::ranlux24(s), 0, 1, T(), true);
